@@ -64,8 +64,17 @@ func (u *memoryManagementUnit) doesExecutionMemoryChangesExistsInL3(execution ri
 	for addr := range execution.MemoryChanges {
 		addrs = append(addrs, addr)
 	}
-	_, _, exists := u.getFromL3(addrs)
-	return exists
+	sort.Slice(addrs, func(i, j int) bool {
+		return addrs[i] < addrs[j]
+	})
+	// A presence test must not register a pending fetch: nobody would ever
+	// complete it.
+	for _, addr := range addrs {
+		if _, exists := u.l3.Get(addr); !exists {
+			return false
+		}
+	}
+	return true
 }
 
 func (u *memoryManagementUnit) writeExecutionMemoryChangesToL3(execution risc.Execution) {
